@@ -30,7 +30,7 @@ def optSeqOf : Sexp → Option (Option Seq)
 partial def argOf : Sexp → Option Arg
   | .atom "N" => some .none
   | .list [.atom "i", n] => n.toInt?.map .num
-  | .list [.atom "s", .atom a] => some (.str a)
+  | .list [.atom "s", .atom a] => some (.str (if a == "%e" then "" else a))
   | .list (.atom "l" :: xs) => (xs.mapM argOf).map .list
   | _ => none
 
